@@ -37,7 +37,7 @@ CLAIMED = {
  "C05": dict(
    text="Bounded symbolic check (layer R): d2r_exp/d2l_exp decided entry-wise against d/da_k of the C04 oracle; d2r_expinv/d2l_expinv and d2r_rminus through "
         "J D_k J = -dJ/da_k; *_squarednorm structurally; d_matrix_product and d2_fog on fully symbolic matrices against the product/chain rule in index form.",
-   note=TB + "; quick: SO2,SO3,SE2,C1 (+SE3 d2r_exp); thorough adds SE3 and a Bundle; helper sizes listed in evidence; tol 1e-5 on series paths.",
+   note=TB + "; quick: SO2,SO3,SE2,C1 (+SE3 d2r_exp); thorough adds SE3 and a Bundle; helper sizes listed in evidence; tol 1e-5 on series paths; a SUPPLEMENTARY native replay of SO3/SE2/SE3 Hessians on a fixed grid of rotation norms around every series switch against an 80-digit reference reports floating-point cancellation (it found the defects repaired in 59e71d7 and 9758caf) but never discharges an obligation.",
    ref="DESIGN 4/C05", technique="symbolic execution of LLVM IR + symbolic differentiation oracle + SMT"),
  "C06": dict(
    text="Bounded symbolic check: every Bundle operation (15 ops incl. Jacobians and Hessians) is executed symbolically and compared, entry by entry, with the same "
@@ -85,7 +85,7 @@ CLAIMED = {
    text="Bounded symbolic check: cspline_eval_vs/gs and the Jacobians cspline_eval_dg_dvs/dgs executed symbolically (u and all control data symbolic) and decided against "
         "the definition: value = prod_j expm(Btilde_j(u) hat v_j) with the cumulative basis from its DEFINITION (tail sums of Bernstein / Cox-de Boor polynomials), "
         "vel/acc/jer = successive u-derivatives by symbolic differentiation of that curve, Jacobians = derivatives with respect to each input direction.",
-   note=TB + "; Vector2d K=1..6 (both bases), double K in {1,3,5}, SO3 K=1, SE2 K=1,2 quick (SO3 K=2 thorough); control-point form on non-commutative groups only through "
+   note=TB + "; Vector2d K=1..6 (both bases), double K in {1,3,5}, SO3 K=1, SE2 K=1,2 quick (SO3 K=2 thorough); the Lie-group Jacobians (dvs/dgs) are decided with u fixed to 1/3 and all control data symbolic in quick (u in {1/3, 3/4} and symbolic u in thorough); control-point form on non-commutative groups only through "
         "differential validation; small-angle paths of the group cases may be undecided.",
    ref="DESIGN 4/C11", technique="symbolic execution of LLVM IR + symbolic differentiation oracle + SMT"),
  "C12": dict(
@@ -116,7 +116,7 @@ CLAIMED = {
    note=TB + "; Euler-angle round trip only differentially validated; series-path differences between two correct Taylor truncations are reported undecided unless reproduced natively.",
    ref="DESIGN 4/C17", technique="symbolic execution of LLVM IR + SMT (atan2 axioms, identity obligations), native replay"),
  "C08": dict(
-   text="Bounded symbolic check: diff::dr<0|1|2> executed symbolically on callable FAMILIES with symbolic coefficients (affine R^2 x R x R^n(dynamic) -> R^2; quadratic with "
+   text="Bounded symbolic check: diff::dr<0|1|2> executed symbolically on callable FAMILIES with symbolic coefficients (affine R^2 x R x R^n(dynamic) -> R^2; scalar- and vector-valued (ny != nx) quadratics with "
         "K=2; SO3 x R^3 action) and on a callable whose value/jacobian are uninterpreted functions; z3 decides J == [A b C] exactly (forward differences are exact on affine "
         "maps, which pins column placement and static/dynamic bookkeeping), the Hessian layout on quadratics exactly, index-subset columns, K=0, Analytic/Default pass-through "
         "verbatim, restoration of every referenced argument, and the SO3 case within 1e-4 by an LRA relaxation.",
@@ -137,11 +137,11 @@ CLAIMED = {
         "up to 40x40 are floating-point statements outside the claim.",
    ref="DESIGN 4/C10", technique="symbolic execution of LLVM IR (Eigen LDLT incl. pivoting) + SMT"),
  "C14": dict(
-   text="PARTIAL bounded symbolic check: the real fit_spline_1d (sparse assembly + Eigen::SparseLU for PiecewiseLinear / FixedDerCubic<1|2>, SimplicialLDLT on the KKT system for "
-        "MinDerivative<5,3,3>) is executed symbolically with symbolic increments dx_i and sampling intervals dt_i that are symbolic in [1e-2,1e2] (any ratio) for the interpolating specs and fixed to stated rationals for MinDerivative (the KKT factorisation with symbolic dt swells past 60 GB); every pivot decision is a path; z3 decides "
-        "on each path that the returned Bernstein coefficients satisfy every interpolation, derivative-continuity and boundary equation written from the specification.",
-   note=TB + "; N<=3 segments (interpolating specs); MinDerivative: N=1 with dt in {1, 1/2, 3} quick, N=2 with dt in {(1,1),(1/2,2),(3,1/3)} thorough; optimality of the MinDerivative cost is not checked (constraints only); NOT encoded: fit_spline on groups, fit_bspline, dubins_curve, reparameterize_spline; the MinDerivative "
-        "defect named in the property is a floating-point conditioning failure of the KKT solve and is invisible to exact arithmetic (layer R).",
+   text="PARTIAL bounded symbolic check: the real fit_spline_1d (sparse assembly + Eigen::SparseLU for PiecewiseLinear / FixedDerCubic<1|2>, SparseLU on the full KKT system for "
+        "MinDerivative<5,3,3> and <6,3,3>) is executed symbolically with symbolic increments dx_i and sampling intervals dt_i that are symbolic in [1e-2,1e2] (any ratio) for the interpolating specs and fixed to stated rationals for MinDerivative (the KKT factorisation with symbolic dt swells past 60 GB); every pivot decision is a path; z3 decides "
+        "on each path that the returned Bernstein coefficients satisfy every interpolation, derivative-continuity and boundary equation written from the specification, and for MinDerivative that every coefficient is within 1e-4 |dx| of the exact rational minimiser of the documented cost.",
+   note=TB + "; N<=3 segments (interpolating specs); MinDerivative: N=1 with dt in {1, 1/2, 3} quick, N=2 with dt in {(1,1),(1/2,2),(3,1/3)} thorough; a SUPPLEMENTARY native scan (250 fits, sampling 1e-2..1e2, the property's interval ratios) evaluates every constraint in backward-error form at 1e-6 and found the KKT defect repaired in 01db3e5; NOT encoded: fit_spline on groups, fit_bspline, dubins_curve, reparameterize_spline; floating-point "
+        "conditioning is visible to the native scan only, not to the exact-arithmetic layer.",
    ref="DESIGN 13.6", technique="symbolic execution of LLVM IR (sparse LU/LDLT, every pivot order a path) + SMT"),
 }
 NA = {}
